@@ -4,6 +4,7 @@ from dataclasses import dataclass, field
 from functools import reduce, cached_property
 from typing import Generator
 from itertools import product
+from numbers import Number
 import re
 
 from sympy import Expr, Symbol, sympify, sinc, cos
@@ -165,8 +166,9 @@ class MultiVector:
         """ Return the shape of the .values() attribute of this multivector. """
         if hasattr(self._values, 'shape'):
             return self._values.shape
-        elif hasattr(self._values[0], 'shape'):
-            return len(self), *self._values[0].shape
+        elif shapes := [v.shape for v in self._values if getattr(v, 'shape', ())]:
+            # The first array-valued coefficient; plain numbers next to it hold at every index.
+            return len(self), *shapes[0]
         else:
             return len(self),
 
@@ -304,7 +306,8 @@ class MultiVector:
 
         values = self.values()
         if isinstance(values, (tuple, list)):
-            return_values = values.__class__(value[item] for value in values)
+            # A plain number among array coefficients (the scalar of `array_valued + 2.5`) holds at every index.
+            return_values = values.__class__(value if isinstance(value, Number) else value[item] for value in values)
         else:
             return_values = values[(slice(None), *item)]
         return self.__class__.fromkeysvalues(self.algebra, keys=self.keys(), values=return_values)
